@@ -156,4 +156,32 @@ theorem multi_push_total_whole (cfg : Config) (hc : cfg.maxCache < 2 ^ 63) (time
   · intro e he
     exact hasFault_false (interfaces P D) e.2.st (hbefore.1 e he).objs (hbefore.1 e he).fobjs
 
+
+/-! ### a richer non-vacuity example (review batch 4): a reachable state WITH an object -/
+
+/-- one real datagram of engine recv's stream: LCT header, TSI 1, TOI 10000, codepoint 0, in-band EXT_FTI
+    (No-Code, E = 32, B = 8, L = 96), payload id (0, 0), 32 payload bytes -/
+def exDatagram : List UInt8 := [16, 16, 7, 0, 0, 0, 0, 0, 0, 1, 39, 16, 64, 4, 0, 0, 0, 0, 0, 96, 0, 0, 0, 32, 0, 0, 0, 8, 0, 0, 0, 0, 148, 66, 139, 57, 136, 221, 153, 166, 115, 63, 203, 57, 187, 196, 251, 49, 53, 120, 187, 173, 48, 122, 140, 48, 166, 247, 19, 11, 213, 74, 56, 102]
+
+def exCfg : Config := ⟨4, false, true, 1024, true, true⟩
+
+/-- what the whole call makes of it from a fresh receiver (kernel evaluation of parser model, session model
+    and the full object model): `Ok`, one ObjectReceiver in the registry, no fault -/
+example :
+    (match pushDataWhole (P := Full.params0) 1 (State.init exCfg) exDatagram 1790000000000000 .err with
+     | .ok (s, r, _) => (s.objects.length, decide (r = .ok), hasFault s)
+     | .error _ => (0, false, true)) = (1, true, false) := by rfl
+
+/-- ... and that state is `Reachable`: the hypotheses of `push_data_total_closed` are met by a history
+    that actually creates an object (the earlier example only reached `objects = []`) -/
+example : ∃ s, Reachable (interfaces Full.params0 dzOK0) 1 exCfg s ∧ s.objects.length = 1 := by
+  obtain ⟨s', r, evs, h, hr⟩ := push_data_total_closed Full.params0 dzOK0 1 exCfg (by decide) (State.init exCfg)
+    Reachable.init exDatagram 1790000000000000 (by unfold TimeSane; omega) .err (by intro fdt u h; cases h)
+  refine ⟨s', hr, ?_⟩
+  have e : (match pushDataWhole (P := Full.params0) 1 (State.init exCfg) exDatagram 1790000000000000 .err with
+     | .ok (s, _, _) => s.objects.length
+     | .error _ => 0) = 1 := by rfl
+  rw [h] at e
+  exact e
+
 end Flute.Props.C04.MultiWhole
